@@ -16,14 +16,17 @@
 #include <fcppt/math/is_static_storage.hpp>
 #include <fcppt/math/size_type.hpp>
 #include <fcppt/math/static_size.hpp>
+#include <fcppt/math/dim/at.hpp>
 #include <fcppt/math/dim/init.hpp>
 #include <fcppt/math/dim/object_impl.hpp>
 #include <fcppt/math/dim/static.hpp>
+#include <fcppt/math/matrix/at_r.hpp>
 #include <fcppt/math/matrix/at_r_c.hpp>
 #include <fcppt/math/matrix/index.hpp>
 #include <fcppt/math/matrix/init.hpp>
 #include <fcppt/math/matrix/object_impl.hpp>
 #include <fcppt/math/matrix/static.hpp>
+#include <fcppt/math/vector/at.hpp>
 #include <fcppt/math/vector/init.hpp>
 #include <fcppt/math/vector/object_impl.hpp>
 #include <fcppt/math/vector/static.hpp>
@@ -232,7 +235,7 @@ ints mvals(M const &m)
 template <typename O>
 inline constexpr bool is_static_obj = fm::is_static_storage<typename std::remove_cv_t<O>::storage_type>::value;
 
-// a reference to element i (< C) of a vector-like object: x() y() z() w() / w() h() d() on static objects, get_unsafe otherwise
+// a reference to element i (< C) of a vector-like object: x() y() z() w() / w() h() d() on static objects, at<I> on views
 template <fam K, typename O>
 std::conditional_t<std::is_const_v<O>, T const &, T &> elem_ref(O &o, unsigned const i)
 {
@@ -265,10 +268,28 @@ std::conditional_t<std::is_const_v<O>, T const &, T &> elem_ref(O &o, unsigned c
           return o.d();
     }
   }
-  return o.get_unsafe(i);
+  // views: the free function at<I> (checked_access<I>) for I = i
+  using ref_type = std::conditional_t<std::is_const_v<O>, T const &, T &>;
+  std::remove_reference_t<ref_type> *res = nullptr;
+  [&]<std::size_t... I>(std::index_sequence<I...>)
+  {
+    (
+        [&]
+        {
+          if (i == I)
+          {
+            if constexpr (K == fam::vector)
+              res = &static_cast<ref_type>(fm::vector::at<I>(o));
+            else
+              res = &static_cast<ref_type>(fm::dim::at<I>(o));
+          }
+        }(),
+        ...);
+  }(std::make_index_sequence<N>{});
+  return res != nullptr ? *res : o.get_unsafe(i);
 }
 
-// a reference to element (i / C, i % C) of a matrix: m00() ... m33() on static matrices, get_unsafe(r).get_unsafe(c) otherwise
+// a reference to element (i / C, i % C) of a matrix: m00() ... m33() on static matrices, at_r_c<R, C> on views
 template <typename O>
 std::conditional_t<std::is_const_v<O>, T const &, T &> mat_elem_ref(O &o, unsigned const i)
 {
@@ -284,7 +305,20 @@ std::conditional_t<std::is_const_v<O>, T const &, T &> mat_elem_ref(O &o, unsign
         C14_MRC(2, 1) C14_MRC(2, 2) C14_MRC(2, 3) C14_MRC(3, 0) C14_MRC(3, 1) C14_MRC(3, 2) C14_MRC(3, 3)
 #undef C14_MRC
   }
-  return o.get_unsafe(i / C).get_unsafe(i % C);
+  // views: the free function at_r_c<R, C>
+  using ref_type = std::conditional_t<std::is_const_v<O>, T const &, T &>;
+  std::remove_reference_t<ref_type> *res = nullptr;
+  [&]<std::size_t... A>(std::index_sequence<A...>)
+  {
+    (
+        [&]
+        {
+          if (i == A)
+            res = &static_cast<ref_type>(fm::matrix::at_r_c<A / C, A % C>(o));
+        }(),
+        ...);
+  }(std::make_index_sequence<R * C>{});
+  return res != nullptr ? *res : o.get_unsafe(i / C).get_unsafe(i % C);
 }
 
 // calls f(object &) with the vector-like object the descriptor names; false if there is no such object
@@ -338,8 +372,20 @@ bool with_vec(W &w, std::string const &d, F f)
       }
       else if (c == 'P')
       {
-        auto row = w.P.get_unsafe(*i);
-        f(row);
+        // rows of P through the free function at_r<I> (checked_access<I>), rows of M through get_unsafe(i)
+        [&]<std::size_t... I>(std::index_sequence<I...>)
+        {
+          (
+              [&]
+              {
+                if (*i == I)
+                {
+                  auto row = fm::matrix::at_r<I>(w.P);
+                  f(row);
+                }
+              }(),
+              ...);
+        }(std::make_index_sequence<R>{});
       }
       else
       {
